@@ -226,6 +226,12 @@ theorem normalized_eq (h : Net) (hwf : h.WF) (weighted : Bool) (ws : List (Optio
           apply List.map_congr_left; intro n _
           simp [deg]
 
+theorem zw_good (h : Net) (hwf : h.WF) (w : List ℚ) (hnz : ∀ p ∈ h.edges, p.2.length ≠ 0) :
+    ∀ pw ∈ h.edges.zip w, pw.1.2.Nodup ∧ (∀ a ∈ pw.1.2, a ∈ h.nodes) ∧ pw.1.2.length ≠ 0 := by
+  intro pw hpw
+  have hmem := (List.of_mem_zip hpw).1
+  exact ⟨(hwf.2.2 pw.1 hmem).1, (hwf.2.2 pw.1 hmem).2, hnz pw.1 hmem⟩
+
 /-! ### adjacency tensor -/
 
 theorem tuples_mem (n k : Nat) (t : List Nat) : t ∈ tuples n k ↔ t.length = k ∧ ∀ i ∈ t, i < n := by
